@@ -203,22 +203,23 @@ deriving Repr
 
 /-- `parse_belief_base` on a string: rule `ckbs`, end of input required, visitor checks on the signature,
 first block returned -/
+def parseBaseToks (names : List String) (ts : List LTok) : Option ParsedBase :=
+  match skipNL ts with
+  | .kwSignature :: .newline :: r =>
+    match parseIds (r.length + 1) (skipNL r) with
+    | none => none
+    | some (sig, r1) =>
+      match parseBlocks names (r1.length + 1) r1 with
+      | some (b :: _) =>
+        if sig.eraseDups.length != sig.length || sig.contains "Top" || sig.contains "Bottom" then none
+        else some ⟨sig, b.1, b.2⟩
+      | _ => none
+  | _ => none
+
 def parseBaseText (s : String) : Option ParsedBase :=
   match lex s with
   | none => none
-  | some ts =>
-    let names := idNames ts
-    match skipNL ts with
-    | .kwSignature :: .newline :: r =>
-      match parseIds (r.length + 1) (skipNL r) with
-      | none => none
-      | some (sig, r1) =>
-        match parseBlocks names (r1.length + 1) r1 with
-        | some (b :: _) =>
-          if sig.eraseDups.length != sig.length || sig.contains "Top" || sig.contains "Bottom" then none
-          else some ⟨sig, b.1, b.2⟩
-        | _ => none
-    | _ => none
+  | some ts => parseBaseToks (idNames ts) ts
 
 /-- `parse_queries` on a string: a text containing "conditionals" is a full file, otherwise it is wrapped
 in the dummy base of `parseQuery` -/
@@ -239,7 +240,12 @@ def tokChars : LTok → List Char
   | .not => ['!']
   | .lpar => ['(']
   | .rpar => [')']
-  | _ => ['#']   -- tokens outside the formula vocabulary are never printed (`FTok`)
+  | .bar => ['|']
+  | .lbrace => ['{']
+  | .rbrace => ['}']
+  | .newline => ['\n']
+  | .kwSignature => ['s', 'i', 'g', 'n', 'a', 't', 'u', 'r', 'e']
+  | .kwConditionals => ['c', 'o', 'n', 'd', 'i', 't', 'i', 'o', 'n', 'a', 'l', 's']
 
 /-- every token followed by one blank -/
 def unlexChars : List LTok → List Char
@@ -259,6 +265,35 @@ def tokL (names : List String) : Tok → LTok
 
 /-- the text of a formula: minimal parentheses, one blank after every token -/
 def text (names : List String) (f : Fm) : String := String.ofList (unlexChars ((pp 2 f).map (tokL names)))
+
+
+/-- tokens of a formula with named atoms -/
+def fmToks (names : List String) (f : Fm) : List LTok := (pp 2 f).map (tokL names)
+
+/-- tokens of one conditional `( B | A )` -/
+def condToks (names : List String) (c : Fm × Fm) : List LTok :=
+  .lpar :: (fmToks names c.1 ++ .bar :: (fmToks names c.2 ++ [.rpar]))
+
+/-- conditionals separated by `,` and a line break -/
+def condsToks (names : List String) : List (Fm × Fm) → List LTok
+  | [] => []
+  | [c] => condToks names c
+  | c :: r => condToks names c ++ .comma :: .newline :: condsToks names r
+
+/-- the signature line: identifiers separated by commas -/
+def idsToks : List String → List LTok
+  | [] => []
+  | [s] => [.id s]
+  | s :: r => .id s :: .comma :: idsToks r
+
+/-- tokens of a belief-base file with one block -/
+def baseToks (sig : List String) (name : String) (cs : List (Fm × Fm)) : List LTok :=
+  .kwSignature :: .newline :: (idsToks sig ++ .newline :: .kwConditionals :: .newline :: .id name :: .lbrace :: .newline ::
+    (condsToks sig cs ++ [.rbrace, .newline]))
+
+/-- the text of the file -/
+def baseText (sig : List String) (name : String) (cs : List (Fm × Fm)) : String :=
+  String.ofList (unlexChars (baseToks sig name cs))
 
 
 end InfOCF
